@@ -40,6 +40,37 @@ type env struct {
 	gov   govv1beta1.Handler
 	toks  []tokInfo
 	accts []sdk.AccAddress
+	// token strings are compared byte for byte: every string governance may submit has ONE model
+	// identifier (a token's index if it is exactly a token's denom, otherwise a "ghost" identifier
+	// >= 1000 of a token that nobody holds)
+	spell   map[string]int
+	ghosts  []string // ghost identifier - 1000 -> string
+	mappedT []int    // indices of the tokens with an ERC20 mapping
+}
+
+const (
+	ibcUpper     = "ibc/27394FB092D2ECCD56123C74F36E4C1F926001CEADA9CA97EA622B25F41E5EB2"
+	ibcLower     = "ibc/27394fb092d2eccd56123c74f36e4c1f926001ceada9ca97ea622b25f41e5eb2"
+	factoryUpper = "factory/paloma1ahx7f8wyertuus9r20284ej0asrs085c945jyk/WETH"
+	factoryLower = "factory/paloma1ahx7f8wyertuus9r20284ej0asrs085c945jyk/weth"
+)
+
+// twin: the token whose denom differs from tok's only in the case of some letters (-1: none).
+var twin = []int{-1, 6, 3, 2, 5, 4, 1, -1}
+
+// spellings of a token's denom a hand-written proposal may carry instead of the denom itself
+func spellings(d string) []string {
+	title := strings.ToUpper(d[:1]) + d[1:]
+	return []string{strings.ToUpper(d), strings.ToLower(d), " " + d, d + " ", "\t" + d + "\n", title, d + "/"}
+}
+
+// tokID: the model identifier of a submitted token string.
+func (e *env) tokID(sp string) int {
+	id, ok := e.spell[sp]
+	if !ok {
+		panic("unregistered token spelling " + sp)
+	}
+	return id
 }
 
 var two256 = new(big.Int).Lsh(big.NewInt(1), 256)
@@ -51,16 +82,37 @@ func setup(t *testing.T) *env {
 	e.base = sdk.UnwrapSDKContext(c)
 	e.ms = keeper.NewMsgServerImpl(in.SkywayKeeper)
 	e.gov = keeper.NewSkywayProposalHandler(in.SkywayKeeper)
+	// denoms as they exist on a live chain: plain lower case, IBC vouchers (upper-case hex), token
+	// factory denoms with an upper-case subdenom, and for each a twin that differs only in case
 	e.toks = []tokInfo{
 		{"ugrain", "0x0bc529c00C6401aEF6D220BE8C6Ea1667F6Ad93e", true},
 		{"utokb", "0x1111111111111111111111111111111111111111", true},
-		{"utokc", "0x2222222222222222222222222222222222222222", true},
-		{"unmapped", "0x3333333333333333333333333333333333333333", false},
+		{ibcUpper, "0x2222222222222222222222222222222222222222", true},
+		{ibcLower, "0x4444444444444444444444444444444444444444", true},
+		{factoryUpper, "0x5555555555555555555555555555555555555555", true},
+		{factoryLower, "0x6666666666666666666666666666666666666666", true},
+		{"uTokB", "0x7777777777777777777777777777777777777777", true},
+		{"Unmapped", "0x3333333333333333333333333333333333333333", false},
 	}
-	for _, tk := range e.toks[1:3] {
+	for _, tk := range e.toks[1:7] {
 		err := e.gov(e.base, &types.SetERC20ToDenomProposal{Title: "t", Description: "d", ChainReferenceId: chain, Erc20: tk.contract, Denom: tk.denom})
 		if err != nil {
 			t.Fatal(err)
+		}
+	}
+	e.spell = map[string]int{}
+	for i, tk := range e.toks {
+		e.spell[tk.denom] = i
+		if tk.mapped {
+			e.mappedT = append(e.mappedT, i)
+		}
+	}
+	for _, tk := range e.toks {
+		for _, sp := range spellings(tk.denom) {
+			if _, ok := e.spell[sp]; !ok {
+				e.spell[sp] = 1000 + len(e.ghosts)
+				e.ghosts = append(e.ghosts, sp)
+			}
 		}
 	}
 	for i := 0; i < 4; i++ {
@@ -191,28 +243,31 @@ func floorMul(a *big.Int, r *big.Rat) *big.Int {
 }
 
 type snap struct {
+	ws     []int        // the tokens observed (a history's working set); the slices are indexed by token
 	bals   [][]*big.Int // [tok][acct]
 	escrow []*big.Int
 	supply []*big.Int
 	usage  []*types.BridgeTransferUsage
 }
 
-func (e *env) snapshot(ctx sdk.Context) snap {
-	var s snap
+func (e *env) snapshot(ctx sdk.Context, ws []int) snap {
+	s := snap{ws: ws, bals: make([][]*big.Int, len(e.toks)), escrow: make([]*big.Int, len(e.toks)),
+		supply: make([]*big.Int, len(e.toks)), usage: make([]*types.BridgeTransferUsage, len(e.toks))}
 	mod := e.in.AccountKeeper.GetModuleAddress(types.ModuleName)
-	for _, tk := range e.toks {
+	for _, t := range ws {
+		tk := e.toks[t]
 		var row []*big.Int
 		for _, a := range e.accts {
 			row = append(row, e.in.BankKeeper.GetBalance(ctx, a, tk.denom).Amount.BigInt())
 		}
-		s.bals = append(s.bals, row)
-		s.escrow = append(s.escrow, e.in.BankKeeper.GetBalance(ctx, mod, tk.denom).Amount.BigInt())
-		s.supply = append(s.supply, e.in.BankKeeper.GetSupply(ctx, tk.denom).Amount.BigInt())
+		s.bals[t] = row
+		s.escrow[t] = e.in.BankKeeper.GetBalance(ctx, mod, tk.denom).Amount.BigInt()
+		s.supply[t] = e.in.BankKeeper.GetSupply(ctx, tk.denom).Amount.BigInt()
 		u, err := e.in.SkywayKeeper.BridgeTransferUsage(ctx, tk.denom)
 		if err != nil {
 			u = nil
 		}
-		s.usage = append(s.usage, u)
+		s.usage[t] = u
 	}
 	return s
 }
@@ -225,7 +280,7 @@ func usageEq(a, b *types.BridgeTransferUsage) bool {
 }
 
 func (s snap) equal(o snap) bool {
-	for t := range s.bals {
+	for _, t := range s.ws {
 		for a := range s.bals[t] {
 			if s.bals[t][a].Cmp(o.bals[t][a]) != 0 {
 				return false
@@ -317,6 +372,7 @@ type histCtx struct {
 	steps    []string
 	opsHuman []string
 	focus    int
+	ws       []int // working set: the tokens this history holds, observes and operates on
 	okCount  int
 	errCount int
 	replay   map[string]any
@@ -354,14 +410,35 @@ func (h *histCtx) limited(sender, tok int) *limCfg {
 }
 
 func (h *histCtx) doSetTax(tok int, rate string, ex []int) {
+	h.doSetTaxSp(h.e.toks[tok].denom, tok, rate, ex)
+}
+
+func sameAddrs(got []sdk.AccAddress, want []sdk.AccAddress) bool {
+	if len(got) != len(want) {
+		return false
+	}
+	for i := range got {
+		if !got[i].Equals(want[i]) {
+			return false
+		}
+	}
+	return true
+}
+
+// doSetTaxSp: governance submits a SetBridgeTaxProposal whose Token is the string sp, verbatim (a
+// token's denom or another spelling of it); obs is the working-set token observed after the step.
+func (h *histCtx) doSetTaxSp(sp string, obs int, rate string, ex []int) {
 	e := h.e
+	tok := e.tokID(sp)
 	addrs := make([]string, len(ex))
+	accs := make([]sdk.AccAddress, len(ex))
 	for i, a := range ex {
 		addrs[i] = e.accts[a].String()
+		accs[i] = e.accts[a]
 	}
-	before := e.snapshot(h.root)
+	before := e.snapshot(h.root, h.ws)
 	err, pan := deliver(h.root, true, func(ctx sdk.Context) error {
-		return e.gov(ctx, &types.SetBridgeTaxProposal{Title: "t", Description: "d", Rate: rate, Token: e.toks[tok].denom, ExemptAddresses: addrs})
+		return e.gov(ctx, &types.SetBridgeTaxProposal{Title: "t", Description: "d", Rate: rate, Token: sp, ExemptAddresses: addrs})
 	})
 	out := classify("settax", err, pan)
 	rat, ok := new(big.Rat).SetString(rate)
@@ -379,15 +456,42 @@ func (h *histCtx) doSetTax(tok int, rate string, ex []int) {
 			}
 			h.tax[tok] = &taxCfg{rate: rat, exempt: m}
 		}
+		// configured = stored: the record is found under exactly the submitted string and carries it
+		if rec, err := e.in.SkywayKeeper.BridgeTax(h.root, sp); err != nil || rec == nil || rec.Token != sp || rec.Rate != rate || !sameAddrs(rec.ExemptAddresses, accs) {
+			h.violate("C15:configured-not-stored-verbatim", fmt.Sprintf("accepted SetBridgeTaxProposal for token %q rate %q: BridgeTax(%q) returns %v (err %v)", sp, rate, sp, rec, err))
+		}
 	}
-	after := e.snapshot(h.root)
+	after := e.snapshot(h.root, h.ws)
 	if !before.equal(after) {
 		h.violate("C15:config-change-moved-funds", "SetBridgeTax changed balances or usage")
 	}
 	h.run.Count("op", "settax")
 	h.run.Count("rate-notation", rateKind(rate))
+	h.run.Count("proposal-token", spellKind(e, sp))
 	h.record(fmt.Sprintf("SetTax %d %s %s %s %s", tok, emit.Bool(ok), zc(num), zc(den), intList(ex)),
-		fmt.Sprintf("SetTax tok=%d rate=%q exempt=%v", tok, rate, ex), true, out, tok, h.r.Intn(4), after)
+		fmt.Sprintf("SetTax token=%q (id %d) rate=%q exempt=%v", sp, tok, rate, ex), true, out, obs, h.r.Intn(4), after)
+}
+
+// spellKind classifies a submitted token string for the input statistics.
+func spellKind(e *env, sp string) string {
+	if id := e.tokID(sp); id >= 1000 {
+		return "other spelling of a denom (no such coin)"
+	}
+	switch {
+	case strings.HasPrefix(sp, "ibc/"):
+		if sp == strings.ToLower(sp) {
+			return "exact denom: ibc/<hex> lower case"
+		}
+		return "exact denom: ibc/<HEX>"
+	case strings.HasPrefix(sp, "factory/"):
+		if sp == strings.ToLower(sp) {
+			return "exact denom: factory/../lower"
+		}
+		return "exact denom: factory/../UPPER"
+	case sp != strings.ToLower(sp):
+		return "exact denom: mixed case"
+	}
+	return "exact denom: lower case"
 }
 
 func rateKind(s string) string {
@@ -404,14 +508,21 @@ func rateKind(s string) string {
 }
 
 func (h *histCtx) doSetLimit(tok int, limit *big.Int, period int, ex []int) {
+	h.doSetLimitSp(h.e.toks[tok].denom, tok, limit, period, ex)
+}
+
+func (h *histCtx) doSetLimitSp(sp string, obs int, limit *big.Int, period int, ex []int) {
 	e := h.e
+	tok := e.tokID(sp)
 	addrs := make([]string, len(ex))
+	accs := make([]sdk.AccAddress, len(ex))
 	for i, a := range ex {
 		addrs[i] = e.accts[a].String()
+		accs[i] = e.accts[a]
 	}
-	before := e.snapshot(h.root)
+	before := e.snapshot(h.root, h.ws)
 	err, pan := deliver(h.root, true, func(ctx sdk.Context) error {
-		return e.gov(ctx, &types.SetBridgeTransferLimitProposal{Title: "t", Description: "d", Token: e.toks[tok].denom,
+		return e.gov(ctx, &types.SetBridgeTransferLimitProposal{Title: "t", Description: "d", Token: sp,
 			Limit: sdkmath.NewIntFromBigInt(limit), LimitPeriod: types.LimitPeriod(period), ExemptAddresses: addrs})
 	})
 	out := classify("setlimit", err, pan)
@@ -424,15 +535,20 @@ func (h *histCtx) doSetLimit(tok int, limit *big.Int, period int, ex []int) {
 		// the oracle's window bookkeeping is per configuration: a configuration change starts a new
 		// observation (the stored tally is kept by the code; the model covers that part)
 		delete(h.win, tok)
+		if rec, err := e.in.SkywayKeeper.BridgeTransferLimit(h.root, sp); err != nil || rec == nil || rec.Token != sp || rec.Limit.BigInt().Cmp(limit) != 0 ||
+			int(rec.LimitPeriod) != period || !sameAddrs(rec.ExemptAddresses, accs) {
+			h.violate("C15:configured-not-stored-verbatim", fmt.Sprintf("accepted SetBridgeTransferLimitProposal for token %q limit %s: BridgeTransferLimit(%q) returns %v (err %v)", sp, limit, sp, rec, err))
+		}
 	}
-	after := e.snapshot(h.root)
+	after := e.snapshot(h.root, h.ws)
 	if !before.equal(after) {
 		h.violate("C15:config-change-moved-funds", "SetBridgeTransferLimit changed balances or usage")
 	}
 	h.run.Count("op", "setlimit")
 	h.run.Count("period", periodCoq[period])
+	h.run.Count("proposal-token", spellKind(e, sp))
 	h.record(fmt.Sprintf("SetLimit %d %s %s %s", tok, zc(limit), periodCoq[period], intList(ex)),
-		fmt.Sprintf("SetLimit tok=%d limit=%s period=%s exempt=%v", tok, limit, periodCoq[period], ex), true, out, tok, h.r.Intn(4), after)
+		fmt.Sprintf("SetLimit token=%q (id %d) limit=%s period=%s exempt=%v", sp, tok, limit, periodCoq[period], ex), true, out, obs, h.r.Intn(4), after)
 }
 
 func (h *histCtx) poolTx(ctx sdk.Context, id uint64) *types.InternalOutgoingTransferTx {
@@ -466,13 +582,13 @@ func (h *histCtx) doSend(height int64, sender, tok int, amount *big.Int, mal int
 		ChainReferenceId: chain,
 		Metadata:         valsettypes.MsgMetadata{Creator: creator, Signers: []string{creator}},
 	}
-	before := e.snapshot(h.root)
+	before := e.snapshot(h.root, h.ws)
 	err, pan := deliver(h.root, atomic, func(ctx sdk.Context) error {
 		_, err := e.ms.SendToRemote(ctx, msg)
 		return err
 	})
 	out := classify("send", err, pan)
-	after := e.snapshot(h.root)
+	after := e.snapshot(h.root, h.ws)
 	human := fmt.Sprintf("Send h=%d sender=%d tok=%d amount=%s mal=%d tx=%v", height, sender, tok, amount, mal, atomic)
 	h.opsHuman = append(h.opsHuman, human+" ...")
 
@@ -587,14 +703,14 @@ func (h *histCtx) inBatch(id uint64) bool {
 func (h *histCtx) doCancel(sender int, id uint64) {
 	e := h.e
 	creator := e.accts[sender].String()
-	before := e.snapshot(h.root)
+	before := e.snapshot(h.root, h.ws)
 	err, pan := deliver(h.root, true, func(ctx sdk.Context) error {
 		_, err := e.ms.CancelSendToRemote(ctx, &types.MsgCancelSendToRemote{TransactionId: id, Metadata: valsettypes.MsgMetadata{Creator: creator, Signers: []string{creator}}})
 		return err
 	})
 	out := classify("cancel", err, pan)
-	after := e.snapshot(h.root)
-	tok := 0
+	after := e.snapshot(h.root, h.ws)
+	tok := h.focus
 	p := h.pend[id]
 	if p != nil {
 		tok = p.tok
@@ -643,7 +759,7 @@ func (h *histCtx) doBatch(tok int) {
 	if out == oOk && len(ids) > 0 {
 		h.batches[fmt.Sprintf("%d/%d", tok, nonce)] = ids
 	}
-	after := e.snapshot(h.root)
+	after := e.snapshot(h.root, h.ws)
 	h.run.Count("op", "batch")
 	h.record(fmt.Sprintf("Batch %d", tok), fmt.Sprintf("Batch tok=%d", tok), true, out, tok, h.r.Intn(4), after)
 }
@@ -651,7 +767,7 @@ func (h *histCtx) doBatch(tok int) {
 func (h *histCtx) doExecute(tok int, nonce uint64, unbatch bool) {
 	e := h.e
 	contract, _ := types.NewEthAddress(e.toks[tok].contract)
-	before := e.snapshot(h.root)
+	before := e.snapshot(h.root, h.ws)
 	kind := "execute"
 	if unbatch {
 		kind = "unbatch"
@@ -665,7 +781,7 @@ func (h *histCtx) doExecute(tok int, nonce uint64, unbatch bool) {
 		})
 	})
 	out := classify(kind, err, pan)
-	after := e.snapshot(h.root)
+	after := e.snapshot(h.root, h.ws)
 	key := fmt.Sprintf("%d/%d", tok, nonce)
 	if out == oOk {
 		ids, ok := h.batches[key]
@@ -703,7 +819,31 @@ func (h *histCtx) doExecute(tok int, nonce uint64, unbatch bool) {
 }
 
 // ---- one history ----
-func (e *env) history(run *emit.Run, r *rand.Rand, hostile bool, script func(h *histCtx)) {
+// working set of a history: the focus token, its case twin, one more mapped token (with its twin
+// when there is room), and in hostile histories the token without an ERC20 mapping.
+func (e *env) workingSet(r *rand.Rand, focus int, hostile bool) []int {
+	ws := []int{focus}
+	if twin[focus] >= 0 {
+		ws = append(ws, twin[focus])
+	}
+	for {
+		o := e.mappedT[r.Intn(len(e.mappedT))]
+		if o != focus && o != twin[focus] {
+			ws = append(ws, o)
+			if twin[o] >= 0 && r.Intn(2) == 0 {
+				ws = append(ws, twin[o])
+			}
+			break
+		}
+	}
+	if hostile {
+		ws = append(ws, len(e.toks)-1)
+	}
+	sort.Ints(ws)
+	return ws
+}
+
+func (e *env) history(run *emit.Run, r *rand.Rand, hostile bool, ws []int, minBal int64, script func(h *histCtx)) {
 	root, _ := e.base.CacheContext() // never written back: every history starts from the same base state
 	h := &histCtx{e: e, run: run, r: r, root: root, tax: map[int]*taxCfg{}, lim: map[int]*limCfg{}, win: map[int]*window{},
 		pend: map[uint64]*pending{}, batches: map[string][]uint64{}, replay: map[string]any{}}
@@ -712,13 +852,26 @@ func (e *env) history(run *emit.Run, r *rand.Rand, hostile bool, script func(h *
 
 	// initial balances; only the focus token of a history can hold very large amounts (big literals are
 	// what the Coq side spends its time on)
-	h.focus = r.Intn(3)
+	if ws == nil {
+		h.focus = e.mappedT[r.Intn(len(e.mappedT))]
+		ws = e.workingSet(r, h.focus, hostile)
+	} else {
+		h.focus = ws[0]
+		ws = append([]int{}, ws...)
+		sort.Ints(ws)
+	}
+	h.ws = ws
+	run.Count("focus-denom", spellKind(e, e.toks[h.focus].denom))
 	var balTerms []string
 	balHuman := map[string]string{}
-	for t, tk := range e.toks {
+	for _, t := range h.ws {
+		tk := e.toks[t]
 		mode := r.Intn(2)
 		if t == h.focus {
 			mode = []int{0, 0, 0, 0, 0, 1, 1, 2, 2, 3, 3, 3}[r.Intn(12)]
+		}
+		if minBal > 0 {
+			mode = 0
 		}
 		if t == 0 && mode == 3 {
 			mode = 2 // ugrain is the staking denom of the fixture: its supply is not ours alone
@@ -746,6 +899,9 @@ func (e *env) history(run *emit.Run, r *rand.Rand, hostile bool, script func(h *
 			if r.Intn(8) == 0 {
 				amt = big.NewInt(0)
 			}
+			if minBal > 0 && amt.Cmp(big.NewInt(minBal)) < 0 {
+				amt = big.NewInt(minBal + int64(r.Intn(100)))
+			}
 			left.Sub(left, amt)
 			if amt.Sign() > 0 {
 				coins := sdk.NewCoins(sdk.NewCoin(tk.denom, sdkmath.NewIntFromBigInt(amt)))
@@ -760,10 +916,15 @@ func (e *env) history(run *emit.Run, r *rand.Rand, hostile bool, script func(h *
 			}
 		}
 	}
-	s0 := e.snapshot(h.root)
+	s0 := e.snapshot(h.root, h.ws)
 	h.supply0 = s0.supply
 	h.replay["balances"] = balHuman
-	for t := range e.toks {
+	denoms := map[string]string{}
+	for _, t := range h.ws {
+		denoms[fmt.Sprintf("tok%d", t)] = e.toks[t].denom
+	}
+	h.replay["denoms"] = denoms
+	for _, t := range h.ws {
 		if s0.escrow[t].Sign() != 0 {
 			panic("fixture: skyway module account not empty")
 		}
@@ -772,8 +933,8 @@ func (e *env) history(run *emit.Run, r *rand.Rand, hostile bool, script func(h *
 	script(h)
 
 	// ---- final observation ----
-	fin := e.snapshot(h.root)
-	var poolT, batchT, balT, usT []string
+	fin := e.snapshot(h.root, h.ws)
+	var poolT, batchT, balT, usT, taxT, limT []string
 	txs, err := e.in.SkywayKeeper.GetUnbatchedTransactions(h.root)
 	if err != nil {
 		panic(err)
@@ -818,28 +979,51 @@ func (e *env) history(run *emit.Run, r *rand.Rand, hostile bool, script func(h *
 		}
 		batchT = append(batchT, emit.Pair(emit.ZU(b.BatchNonce), emit.ZI(int64(t)), emit.List(items)))
 	}
-	for t := range e.toks {
+	exemptIdx := func(as []sdk.AccAddress) []int {
+		out := make([]int, len(as))
+		for i, a := range as {
+			out[i] = acctOf(a)
+		}
+		return out
+	}
+	for _, t := range h.ws {
 		row := make([]string, len(e.accts))
 		for a := range e.accts {
 			row[a] = zc(fin.bals[t][a])
 		}
 		balT = append(balT, emit.List(row))
 		usT = append(usT, coqUsage(fin.usage[t]))
+		// the settings a send of exactly this denom meets, as the store returns them
+		if rec, err := e.in.SkywayKeeper.BridgeTax(h.root, e.toks[t].denom); err == nil && rec != nil {
+			rat, ok := new(big.Rat).SetString(rec.Rate)
+			if !ok {
+				panic("stored rate does not parse: " + rec.Rate)
+			}
+			taxT = append(taxT, "(Some "+emit.Pair(zc(rat.Num()), zc(rat.Denom()), intList(exemptIdx(rec.ExemptAddresses)))+")")
+		} else {
+			taxT = append(taxT, "None")
+		}
+		if rec, err := e.in.SkywayKeeper.BridgeTransferLimit(h.root, e.toks[t].denom); err == nil && rec != nil {
+			limT = append(limT, "(Some "+emit.Pair(zc(rec.Limit.BigInt()), emit.ZI(int64(rec.LimitPeriod)), intList(exemptIdx(rec.ExemptAddresses)))+")")
+		} else {
+			limT = append(limT, "None")
+		}
 		// the tax stays locked with the amount until the transfer is finished
 		if fin.escrow[t].Cmp(lockedByTok[t]) != 0 {
 			h.violate("C15:escrow-differs-from-pending-amount-plus-tax", fmt.Sprintf("token %d: module account holds %s, pending transfers record amount+tax = %s", t, fin.escrow[t], lockedByTok[t]))
 		}
 	}
+	h.checkListedSettings()
 	var mp []int
-	for t, tk := range e.toks {
-		if tk.mapped {
+	for _, t := range h.ws {
+		if e.toks[t].mapped {
 			mp = append(mp, t)
 		}
 	}
-	finT := fmt.Sprintf("{| C15.fo_pool := %s; C15.fo_batches := %s; C15.fo_bals := %s; C15.fo_usages := %s |}",
-		emit.List(poolT), emit.List(batchT), emit.List(balT), emit.List(usT))
+	finT := fmt.Sprintf("{| C15.fo_pool := %s; C15.fo_batches := %s; C15.fo_bals := %s; C15.fo_usages := %s; C15.fo_taxes := %s; C15.fo_limits := %s |}",
+		emit.List(poolT), emit.List(batchT), emit.List(balT), emit.List(usT), emit.List(taxT), emit.List(limT))
 	sort.Strings(balTerms)
-	term := fmt.Sprintf("C15.CHist [0; 1; 2; 3] [0; 1; 2; 3] %s %s %s %s", emit.List(balTerms), intList(mp), emit.List(h.steps), finT)
+	term := fmt.Sprintf("C15.CHist [0; 1; 2; 3] %s %s %s %s %s", intList(h.ws), emit.List(balTerms), intList(mp), emit.List(h.steps), finT)
 	kind := "structured"
 	if hostile {
 		kind = "hostile"
@@ -847,6 +1031,62 @@ func (e *env) history(run *emit.Run, r *rand.Rand, hostile bool, script func(h *
 	run.Count("history", kind)
 	run.Count("history-length", fmt.Sprint(len(h.steps)))
 	run.Case(term, h.okCount > 0 && h.errCount > 0, map[string]any{"kind": kind, "balances": balHuman, "ops": h.opsHuman})
+}
+
+// checkListedSettings: what the queries list (AllBridgeTaxes / AllBridgeTransferLimits) is exactly what
+// governance submitted in this history: the same token strings, each with its last accepted settings.
+func (h *histCtx) checkListedSettings() {
+	e := h.e
+	name := func(id int) string {
+		if id >= 1000 {
+			return e.ghosts[id-1000]
+		}
+		return e.toks[id].denom
+	}
+	taxes, err := e.in.SkywayKeeper.AllBridgeTaxes(h.root)
+	if err != nil && len(h.tax) > 0 {
+		h.violate("C15:listed-settings-differ-from-configured", "AllBridgeTaxes: "+err.Error())
+		return
+	}
+	listed := map[string]*types.BridgeTax{}
+	for _, tx := range taxes {
+		listed[tx.Token] = tx
+	}
+	for id, tc := range h.tax {
+		rec := listed[name(id)]
+		if rec == nil {
+			h.violate("C15:listed-settings-differ-from-configured", fmt.Sprintf("bridge tax configured for token %q is not listed under that token", name(id)))
+			continue
+		}
+		if rat, ok := new(big.Rat).SetString(rec.Rate); !ok || rat.Cmp(tc.rate) != 0 {
+			h.violate("C15:listed-settings-differ-from-configured", fmt.Sprintf("bridge tax of token %q listed with rate %q, configured %s", name(id), rec.Rate, tc.rate))
+		}
+	}
+	if len(listed) != len(h.tax) {
+		h.violate("C15:listed-settings-differ-from-configured", fmt.Sprintf("%d bridge tax records listed, %d tokens configured", len(listed), len(h.tax)))
+	}
+	limits, err := e.in.SkywayKeeper.AllBridgeTransferLimits(h.root)
+	if err != nil && len(h.lim) > 0 {
+		h.violate("C15:listed-settings-differ-from-configured", "AllBridgeTransferLimits: "+err.Error())
+		return
+	}
+	listedL := map[string]*types.BridgeTransferLimit{}
+	for _, l := range limits {
+		listedL[l.Token] = l
+	}
+	for id, lc := range h.lim {
+		rec := listedL[name(id)]
+		if rec == nil {
+			h.violate("C15:listed-settings-differ-from-configured", fmt.Sprintf("transfer limit configured for token %q is not listed under that token", name(id)))
+			continue
+		}
+		if rec.Limit.BigInt().Cmp(lc.limit) != 0 || int(rec.LimitPeriod) != lc.period {
+			h.violate("C15:listed-settings-differ-from-configured", fmt.Sprintf("transfer limit of token %q listed as %s / %s, configured %s / %s", name(id), rec.Limit, rec.LimitPeriod, lc.limit, periodCoq[lc.period]))
+		}
+	}
+	if len(listedL) != len(h.lim) {
+		h.violate("C15:listed-settings-differ-from-configured", fmt.Sprintf("%d transfer limit records listed, %d tokens configured", len(listedL), len(h.lim)))
+	}
 }
 
 // pickAmount draws an amount aimed at the interesting boundaries of the current state.
@@ -1001,18 +1241,46 @@ func (h *histCtx) randomLimit(tok int) *big.Int {
 func structured(hostile bool) func(h *histCtx) {
 	return func(h *histCtx) {
 		r := h.r
-		ntok := 3
-		if hostile {
-			ntok = 4
-		}
+		e := h.e
 		focus := h.focus // most operations are about one token so that windows fill up
+		var mappedWs []int
+		for _, t := range h.ws {
+			if e.toks[t].mapped {
+				mappedWs = append(mappedWs, t)
+			}
+		}
 		pickTok := func() int {
-			if r.Intn(4) != 0 {
+			switch k := r.Intn(8); {
+			case k < 5:
+				return focus
+			case k < 7 && twin[focus] >= 0:
+				return twin[focus] // the denom that differs from the focus only in case
+			}
+			return h.ws[r.Intn(len(h.ws))]
+		}
+		pickMapped := func() int {
+			if r.Intn(3) != 0 {
 				return focus
 			}
-			return r.Intn(ntok)
+			return mappedWs[r.Intn(len(mappedWs))]
 		}
-		// configuration first (usually)
+		// the token string of a proposal: the denom itself, or (1 in 6; 1 in 3 in hostile histories)
+		// another spelling of it — upper / lower case, surrounding blanks, ... — which names another token
+		pickSpelling := func(tok int) string {
+			d := e.toks[tok].denom
+			n := 6
+			if hostile {
+				n = 3
+			}
+			if r.Intn(n) == 0 {
+				sp := spellings(d)
+				return sp[r.Intn(len(sp))]
+			}
+			return d
+		}
+		setTax := func(tok int) { h.doSetTaxSp(pickSpelling(tok), tok, genRate(r), subset(r, 4)) }
+		setLimit := func(tok int, p int) { h.doSetLimitSp(pickSpelling(tok), tok, h.randomLimit(tok), p, subset(r, 4)) }
+		// configuration first (usually); the case twin often gets settings of its own
 		if r.Intn(6) != 0 {
 			h.doSetTax(focus, genRate(r), subset(r, 4))
 		}
@@ -1022,6 +1290,13 @@ func structured(hostile bool) func(h *histCtx) {
 				p = 0
 			}
 			h.doSetLimit(focus, h.randomLimit(focus), p, subset(r, 4))
+		}
+		if tw := twin[focus]; tw >= 0 && r.Intn(2) == 0 {
+			if r.Intn(2) == 0 {
+				h.doSetTax(tw, genRate(r), subset(r, 4))
+			} else {
+				h.doSetLimit(tw, h.randomLimit(tw), 1+r.Intn(4), subset(r, 4))
+			}
 		}
 		n := 3 + r.Intn(10)
 		for i := 0; i < n; i++ {
@@ -1057,7 +1332,7 @@ func structured(hostile bool) func(h *histCtx) {
 					h.doCancel(r.Intn(4), uint64(r.Intn(6)))
 				}
 			case k < 16:
-				h.doBatch(pickTok() % 3)
+				h.doBatch(pickMapped())
 			case k < 18:
 				var keys []string
 				for k := range h.batches {
@@ -1070,23 +1345,28 @@ func structured(hostile bool) func(h *histCtx) {
 					fmt.Sscanf(keys[r.Intn(len(keys))], "%d/%d", &tok, &nonce)
 					h.doExecute(tok, nonce, r.Intn(3) == 0)
 				} else {
-					h.doExecute(r.Intn(3), uint64(r.Intn(4)), r.Intn(2) == 0)
+					h.doExecute(pickMapped(), uint64(r.Intn(4)), r.Intn(2) == 0)
 				}
 			case k < 19:
-				h.doSetTax(pickTok(), genRate(r), subset(r, 4))
+				setTax(pickTok())
 			default:
-				tok := pickTok()
-				h.doSetLimit(tok, h.randomLimit(tok), r.Intn(5), subset(r, 4))
+				setLimit(pickTok(), r.Intn(5))
 			}
 		}
 	}
 }
 
 // corpus: fixed histories replayed first (boundaries named in the property statement).
-func corpus() []func(h *histCtx) {
-	return []func(h *histCtx){
+type corpusCase struct {
+	ws     []int // working set, focus first
+	minBal int64 // every account holds at least this much of every token of the working set
+	f      func(h *histCtx)
+}
+
+func corpus() []corpusCase {
+	return []corpusCase{
 		// rounding direction: 1/3 of 100 is 33, of 101 is 33, of 2 is 0
-		func(h *histCtx) {
+		{[]int{1, 6, 0}, 0, func(h *histCtx) {
 			h.doSetTax(1, "1/3", nil)
 			for _, a := range []int64{100, 101, 2, 1, 3} {
 				h.doSend(h.height, 0, 1, big.NewInt(a), 0, true)
@@ -1094,9 +1374,9 @@ func corpus() []func(h *histCtx) {
 			h.doCancel(0, 1)
 			h.doBatch(1)
 			h.doExecute(1, 1, false)
-		},
+		}},
 		// window roll-over at the exact boundary block
-		func(h *histCtx) {
+		{[]int{0, 1, 2}, 0, func(h *histCtx) {
 			h.doSetLimit(0, big.NewInt(150), 1, nil)
 			h0 := h.height
 			h.doSend(h0, 0, 0, big.NewInt(100), 0, true)
@@ -1105,15 +1385,54 @@ func corpus() []func(h *histCtx) {
 			h.doSend(h0+57600, 1, 0, big.NewInt(151), 0, true)
 			h.doSend(h0+57600, 1, 0, big.NewInt(150), 0, true)
 			h.doSend(h0+57600+57599, 1, 0, big.NewInt(1), 0, true)
-		},
+		}},
 		// failed send (insufficient funds) must not consume allowance; keeper-level view last
-		func(h *histCtx) {
+		{[]int{2, 3, 1}, 0, func(h *histCtx) {
 			h.doSetLimit(2, big.NewInt(1000), 2, []int{3})
-			bal := h.e.in.BankKeeper.GetBalance(h.root, h.e.accts[1], "utokc").Amount.BigInt()
+			bal := h.e.in.BankKeeper.GetBalance(h.root, h.e.accts[1], h.e.toks[2].denom).Amount.BigInt()
 			h.doSend(h.height, 1, 2, new(big.Int).Add(bal, big.NewInt(1)), 0, true)
 			h.doSend(h.height, 3, 2, big.NewInt(5), 0, true)
 			h.doSend(h.height, 1, 2, new(big.Int).Add(bal, big.NewInt(1)), 0, false)
-		},
+		}},
+		// an IBC voucher (upper-case hex) configured through governance: 10% tax, 1000 a day
+		{[]int{2, 3, 1}, 5000, func(h *histCtx) {
+			h.doSetTax(2, "0.1", nil)
+			h.doSetLimit(2, big.NewInt(1000), 1, nil)
+			h.doSend(h.height, 0, 2, big.NewInt(600), 0, true)    // pays 660
+			h.doSend(h.height+10, 0, 2, big.NewInt(600), 0, true) // 1200 > 1000: rejected
+			h.doSend(h.height+10, 0, 2, big.NewInt(400), 0, true) // pays 440
+			h.doSend(h.height+10, 0, 3, big.NewInt(600), 0, true) // the lower-case twin: no tax, no limit
+			h.doSend(h.height+10, 0, 3, big.NewInt(600), 0, true)
+		}},
+		// two token factory denoms that differ only in case have independent settings
+		{[]int{4, 5, 1, 6}, 5000, func(h *histCtx) {
+			h.doSetTax(4, "1/10", nil)
+			h.doSetTax(5, "1/2", []int{1})
+			h.doSetLimit(4, big.NewInt(1000), 1, nil)
+			h.doSetLimit(5, big.NewInt(700), 2, []int{1})
+			h.doSend(h.height, 0, 4, big.NewInt(600), 0, true) // 660
+			h.doSend(h.height, 0, 5, big.NewInt(600), 0, true) // 900
+			h.doSend(h.height, 1, 5, big.NewInt(600), 0, true) // exempt from both: 600
+			h.doSend(h.height+1, 0, 4, big.NewInt(401), 0, true) // rejected
+			h.doSend(h.height+1, 0, 5, big.NewInt(101), 0, true) // rejected
+			h.doSend(h.height+1, 0, 4, big.NewInt(400), 0, true)
+			h.doSend(h.height+1, 0, 5, big.NewInt(100), 0, true)
+			h.doSetTax(5, "0", nil) // changing one leaves the other
+			h.doSend(h.height+57600, 0, 4, big.NewInt(10), 0, true) // 11
+		}},
+		// a proposal whose token is another spelling of a denom configures THAT string, not the denom
+		{[]int{1, 6, 4, 5}, 5000, func(h *histCtx) {
+			h.doSetTaxSp(" utokb", 1, "0.5", nil)
+			h.doSetTaxSp("UTOKB", 1, "0.25", nil)
+			h.doSetLimitSp("utokb ", 1, big.NewInt(10), 1, nil)
+			h.doSend(h.height, 0, 1, big.NewInt(100), 0, true) // utokb: neither taxed nor limited
+			h.doSetTax(6, "0.2", nil)                          // uTokB is a coin of its own
+			h.doSend(h.height, 0, 6, big.NewInt(100), 0, true) // 120
+			h.doSend(h.height, 0, 1, big.NewInt(100), 0, true) // still 100
+			h.doSetLimitSp(strings.ToLower(factoryUpper), 4, big.NewInt(50), 1, nil) // = the denom of token 5
+			h.doSend(h.height, 0, 4, big.NewInt(100), 0, true)                       // WETH: unlimited
+			h.doSend(h.height, 0, 5, big.NewInt(51), 0, true)                        // weth: rejected
+		}},
 	}
 }
 
@@ -1121,7 +1440,10 @@ func TestCorr(t *testing.T) {
 	run := emit.Start("C15", 600)
 	run.Rule("one case = one history on the real skyway keeper (SetupFiveValChain), every message delivered inside a cache context " +
 		"committed on success: 0-2 governance settings then 3-12 operations (send / cancel / build batch / execute / return batch / " +
-		"SetBridgeTax / SetBridgeTransferLimit) over 4 accounts x 4 tokens (one without ERC20 mapping); balances up to 2^256-1; rates in " +
+		"SetBridgeTax / SetBridgeTransferLimit) over 4 accounts x 3-5 of 8 tokens (plain lower-case denoms, an IBC voucher ibc/<HEX>, a token " +
+		"factory denom factory/<addr>/WETH, a mixed-case denom, each with a twin that differs only in case, one token without ERC20 mapping); " +
+		"the Token of a proposal is the denom or (1 in 6, hostile 1 in 3) another spelling of it (upper / lower case, blanks) which the model " +
+		"treats as the different token it is; balances up to 2^256-1; rates in " +
 		"decimal, fraction and exponent notation parsed by big.Rat on the Go side; all five periods; send heights aimed at " +
 		"start+L-1, start+L, start+L+1; amounts aimed at balance, balance+1, remaining allowance +-1, limit +-1, 2^256-1; ~15% hostile " +
 		"histories (negative / zero amounts, malformed sender or destination, unmapped denom, unknown ids); a quarter of the final " +
@@ -1131,11 +1453,11 @@ func TestCorr(t *testing.T) {
 	}
 	e := setup(t)
 	for _, sc := range corpus() {
-		e.history(run, run.Rng, false, sc)
+		e.history(run, run.Rng, false, sc.ws, sc.minBal, sc.f)
 	}
 	for run.NCases() < run.N {
 		hostile := run.Rng.Intn(100) < 15
-		e.history(run, run.Rng, hostile, structured(hostile))
+		e.history(run, run.Rng, hostile, nil, 0, structured(hostile))
 	}
 	if err := run.Finish("Skyway.TaxLimit Corr.C15", "C15.case", "C15.check"); err != nil {
 		t.Fatal(err)
